@@ -6,6 +6,19 @@ DIFF_NOTE = ("Trusted: Lean 4.33 kernel (axioms propext, Classical.choice, Quot.
              "than verified: the Go analyser itself (hand-written Lean transcription, one function per Go function, explicit panics, fuel), "
              "float formatting of DiffInfo, x- extensions (oracle sweep only).")
 CLAIMED = {
+ "C11": {
+  "technique": "Lean 4 proof (invariants by induction over all histories of a file-system state machine) + regenerated layout table + random-history correspondence with the swagger CLI",
+  "text": ("Proof: the write policy of GenOpts.write (skip iff SkipExists and the file exists, else overwrite; nothing is removed) is a state machine; "
+           "for ALL finite histories of generation runs and user edits: user_preserved (a path no run names keeps the last user content), no_delete, "
+           "configure_kept (a path only written with SkipExists keeps its content once present), converges / independent_of_prior_state (every non-skipped "
+           "file of a run equals what a generation into an empty directory gives). Which template entries carry SkipExists is REGENERATED from the live "
+           "GenOpts.Sections through the real createSwagger plumbing, with and without --regenerate-configureapi (only_configure_skips, regenerate_clears_skip "
+           "by decide). Tie: random histories (server/client/model runs on an evolving spec, user edits/adds) executed with the CLI built from the tree; after "
+           "every step the target tree equals the model state and the property's own tree oracles hold."),
+  "note": ("Trusted: Lean kernel + audited axioms; vx extract (Layout from live Sections via a verif-tagged probe around createSwagger); genlab (CLI built from /repo without "
+           "tags, scratch module outside /repo and /verif, tree hashing). Modelled rather than verified: which files a run writes and their content (observed from a fresh "
+           "generation), template rendering, goimports formatting; a failing run that dumps unformatted text is allowed by the property and not exercised."),
+ },
  "C12": {
   "technique": "Lean 4 proof (identity theorem over a full executable model of the analyser) + model/implementation correspondence",
   "text": ("Proof: `self_identity` shows for EVERY well-formed document, fuel and iteration order that a normal return of the modelled "
